@@ -113,11 +113,13 @@ type Config struct {
 	Impl   string   // art | rbt
 	Keys   [][]byte // keys written and read
 	Probes [][]byte // read only
-	Snap   map[string][]byte
-	Vals   []string
-	Depth  int
-	MaxSt  int
-	MaxCps int
+	// ProbeBounds: the probes are iteration bounds as well
+	ProbeBounds bool
+	Snap        map[string][]byte
+	Vals        []string
+	Depth       int
+	MaxSt       int
+	MaxCps      int
 }
 
 var pool = [][]byte{[]byte(""), []byte("a"), []byte("a\x00"), []byte("a\xff"), []byte("b")}
@@ -148,6 +150,27 @@ func configs(thorough bool) []*Config {
 				Name: fmt.Sprintf("%s/snapshot{%s}", impl, strings.Join(names, ",")), Impl: impl,
 				Keys: pool, Probes: [][]byte{[]byte("a\x01")}, Snap: snap, Vals: []string{"1", "2"}, Depth: d, MaxSt: 2, MaxCps: 1,
 			})
+		}
+	}
+	// long-prefix key sets: keys sharing a run of more than 20 bytes (the radix tree keeps at most 20
+	// bytes of a compressed prefix in the node and compares the rest against a leaf), with iteration
+	// bounds that are keys of the set and probes between / beyond them
+	lp := strings.Repeat("p", 30)
+	long := [][]byte{[]byte(lp + "a1"), []byte(lp + "a2"), []byte(lp + "a3"), []byte(lp + "bz")}
+	probes := [][]byte{[]byte(lp + "a10"), []byte(lp + "az"), []byte(lp), []byte(lp + "bzz")}
+	for _, impl := range []string{"art", "rbt"} {
+		for _, withSnap := range []bool{false, true} {
+			snap := map[string][]byte{}
+			name := impl + "/long-prefix/snapshot{}"
+			if withSnap {
+				snap[lp+"a2"], snap[lp+"c"] = []byte("s0"), []byte("s1")
+				name = impl + "/long-prefix/snapshot{P+a2,P+c}"
+			}
+			d := 4
+			if thorough {
+				d = 5
+			}
+			out = append(out, &Config{Name: name, Impl: impl, Keys: long, Probes: probes, ProbeBounds: true, Snap: snap, Vals: []string{"1"}, Depth: d, MaxSt: 1, MaxCps: 1})
 		}
 	}
 	return out
@@ -404,6 +427,9 @@ func (c *Config) observe(m *omap.Model, im *membuf.Impl, us *unionstore.KVUnionS
 
 	// iterators over all bound pairs (pool keys and nil)
 	bounds := append([][]byte{nil}, c.Keys...)
+	if c.ProbeBounds {
+		bounds = append(bounds, c.Probes...)
+	}
 	limit := len(view) + 2
 	for _, l := range bounds {
 		for _, u := range bounds {
